@@ -415,7 +415,42 @@ def kf_d6b(seed=1):
     return peer_script("kf_d6b/0", seed, st, opts=dict(link_mtu=576), lat=1000, rand=[10, 100], info={"family": "kf", "kf": "D6b"})
 
 # ------------------------------------------------------------------ closing / abort families (C03, C08, C17)
+def rto_close_script(seed, idx, fam="close"):
+    """Everything the application wrote is in flight and lost together; the retransmission timer fires (the sender's
+    "last sent" number is rewound to the first outstanding segment); while it stays rewound the application lets the
+    stream go without flushing; then the network heals.  The FIN still follows the last data segment and the peer's
+    reader gets every byte before end-of-stream."""
+    rng = random.Random(seed * 1000003 + idx * 83 + 59)
+    link = rng.choice([576, 1500])
+    mss = LINKS[link]
+    lat = rng.choice([1000, 10000])
+    k = rng.choice([2, 2, 3])
+    n = k * mss - rng.choice([0, 0, 7, mss // 2])
+    gen = isn_pair(rng)
+    st = connect_steps() + [{"op": "read", "ep": "b"}, {"op": "read", "ep": "a"}]
+    if rng.random() < 0.5:          # a first exchange, so that the retransmission timeout is a measured one
+        st += [{"op": "write", "ep": "a", "n": 100}, sleep(4 * lat + 50000)]
+    st += [{"op": "net_set", "from": "A", "to": "B", "cut": True},
+           {"op": "write", "ep": "a", "n": n},
+           sleep(rng.choice([700000, 1300000, 1800000, 2600000]))]
+    closer = rng.choice(["drop_a", "drop_a", "drop_w_then_r", "shutdown_a"])
+    if closer == "drop_a":
+        st.append({"op": "drop", "ep": "a"})
+    elif closer == "drop_w_then_r":
+        st += [{"op": "drop_w", "ep": "a"}, {"op": "drop_r", "ep": "a"}]
+    else:
+        st.append({"op": "shutdown", "ep": "a"})
+    st += [sleep(rng.choice([0, 1000, 100000])), {"op": "net_set", "from": "A", "to": "B", "cut": False},
+           {"op": "wait", "timeout_us": 45 * SEC},
+           {"op": "drop", "ep": "a"}, {"op": "drop", "ep": "b"}, sleep(25 * SEC)]
+    socks = [sock("A", A_ADDR, rand=[gen(), gen()], link_mtu=link, max_retx=5, inactivity_ms=10000),
+             sock("B", B_ADDR, rand=[gen(), gen()], link_mtu=link, inactivity_ms=10000)]
+    return script(f"{fam}/{idx}", seed * 41 + idx, socks, st, net={"latency_us": lat},
+                  info={"family": fam, "fault": "rto_then_close", "closer": closer, "reader": "greedy", "n": n})
+
 def close_script(seed, idx, fam="close"):
+    if idx % 10 == 7:
+        return rto_close_script(seed, idx, fam)
     rng = random.Random(seed * 1000003 + idx * 17 + 3)
     link = rng.choice([576, 1500, 148])
     rx = rng.choice([2048, 4096, 65536, 1 << 20])
@@ -1143,7 +1178,7 @@ def flood_after_close_script(seed, idx, fam="flood_close"):
         st += [{"op": "shutdown", "ep": "a"}, {"op": "drop_r", "ep": "a"}]
     st += [sleep(lat + 10), peer("ack"), sleep(lat + 10)]
     gap = rng.choice([300000, 500000, 800000])
-    for _ in range(int(24 * SEC / gap)):
+    for _ in range(int(40 * SEC / gap)):
         st += [peer("data", len=rng.choice([mss, 100])), sleep(gap)]
     st += [{"op": "drop", "ep": "a"}, sleep(25 * SEC)]
     return peer_script(f"{fam}/{idx}", seed * 89 + idx, st, opts=dict(link_mtu=link, rx_buf=rx, inactivity_ms=3000), lat=lat,
